@@ -40,8 +40,10 @@ const TOKEN_POOL: &[&str] = &[
 	"]", ";", ":", ",", ".", "..", "=", "==", "!=", "<", ">", "<=", ">=", "<<", ">>", "+", "-",
 	"*", "/", "%", "&", "|", "^", "!", "->", "|:", "x", "y", "main", "return", "0", "1", "255",
 	"0xFF", "1u8", "true", "'a'", "\"s\"", "_", "print!", "|x|",
-	// the other builtins
-	"dbg!", "panic!", "abort!", "format!", "file!", "line!", "eprint!", "include_bytes!",
+	// the other builtins (`panic!` is left to C02's probes: its value can be
+	// used as an operand, which breaks the IR in as many ways as there are
+	// operand positions - recorded, and kept out of the random streams)
+	"dbg!", "abort!", "format!", "file!", "line!", "eprint!", "include_bytes!",
 ];
 
 /// token-level edits on a source text (spans from the reference lexer)
